@@ -354,39 +354,55 @@ def verify_unit(unit, vacuity=True, extra=None, tag=''):
 
 
 def vacuity_pass(unit, tag=''):
-    """Re-verify with `ensures false` on every contracted function: every one must FAIL."""
-    text, meta = extract.generate(unit, vacuity=True)
-    stem = 'v_%s%s' % (unit, tag)
-    path = os.path.join(GEN, stem + '.rs')
-    with open(path, 'w') as f:
-        f.write(text)
-    cmd, out, err, rc, wall = run_verus(path, None, None, multiple_errors=1)
-    gen_lines = text.split('\n')
-    diags, raw = parse_diags(err)
-    failed_fns = set()
-    hard_errors = []
-    for d in diags:
-        if d.get('level') != 'error' or d.get('message', '').startswith('aborting'):
-            continue
-        hit = False
-        for s in d.get('spans', []):
-            ln = s.get('line_start')
-            if ln and ln <= len(gen_lines) and 'VACUITY' in gen_lines[ln - 1]:
-                hit = True
-        if hit:
+    """For every contracted function separately: re-verify the unit with `ensures false` added to THAT
+    function only (so that callers never see a false postcondition); it must FAIL.  A function where
+    `false` verifies has a contradictory precondition or an inconsistent shim."""
+    text0, meta0 = extract.generate(unit)
+    n = len(meta0['fns'])
+
+    def one(k):
+        text, meta = extract.generate_vacuity(unit, k)
+        stem = 'v_%s%s_%d' % (unit, tag, k)
+        path = os.path.join(GEN, stem + '.rs')
+        with open(path, 'w') as f:
+            f.write(text)
+        cmd, out, err, rc, wall = run_verus(path, None, None, multiple_errors=1)
+        gen_lines = text.split('\n')
+        diags, raw = parse_diags(err)
+        refuted = False
+        hard = []
+        for d in diags:
+            if d.get('level') != 'error' or d.get('message', '').startswith('aborting'):
+                continue
+            hit = False
             for s in d.get('spans', []):
-                fb = fn_block_at(meta, s.get('line_start') or 0)
-                if fb:
-                    failed_fns.add(fb['name'] + '@' + fb['file'])
-        else:
-            low = d.get('message', '').lower()
-            if not any(o in low for o in OBLIGATION_MSGS) and not any(u.lower() in low for u in UNDECIDED_MSGS):
-                hard_errors.append(d.get('message', '')[:200])
-    if not diags and rc != 0:
-        hard_errors.append('verus rc=%s: %s' % (rc, ' | '.join(raw[-2:])[:300]))
-    allf = [f['name'] + '@' + f['file'] for f in meta['fns']]
-    vac = [f for f in allf if f not in failed_fns]
-    return {'checked': len(allf), 'refuted_false': len(allf) - len(vac), 'vacuous': vac, 'errors': hard_errors[:3]}
+                ln = s.get('line_start')
+                if ln and ln <= len(gen_lines) and 'VACUITY' in gen_lines[ln - 1]:
+                    hit = True
+            if hit:
+                refuted = True
+            else:
+                low = d.get('message', '').lower()
+                if not any(o in low for o in OBLIGATION_MSGS) and not any(u.lower() in low for u in UNDECIDED_MSGS) \
+                        and 'not all errors may have been reported' not in low:
+                    hard.append(d.get('message', '')[:200])
+        if not diags and rc != 0:
+            hard.append('verus rc=%s: %s' % (rc, ' | '.join(raw[-2:])[:300]))
+        try:
+            os.unlink(path)
+        except OSError:
+            pass
+        return refuted, hard
+
+    vac, hard_errors = [], []
+    with concurrent.futures.ThreadPoolExecutor(max_workers=6) as ex:
+        res = list(ex.map(one, range(n)))
+    for k, (refuted, hard) in enumerate(res):
+        f = meta0['fns'][k]
+        if not refuted:
+            vac.append(f['name'] + '@' + f['file'])
+        hard_errors.extend(hard)
+    return {'checked': n, 'refuted_false': n - len(vac), 'vacuous': vac, 'errors': hard_errors[:3]}
 
 
 def load_known():
